@@ -5,6 +5,7 @@ package driver
 // Add-only export shims for the C20 (concurrency) check of /verif.
 
 import (
+	"net/http"
 	"net/http/httptest"
 	"net/url"
 	"strconv"
@@ -127,4 +128,10 @@ func VerifC20LeakedLocks() []string {
 		}
 	}
 	return out
+}
+
+// VerifC20DefaultUI returns the UI that setDefaults installs when the caller supplies none (stdUI).
+func VerifC20DefaultUI() plugin.UI {
+	// a transport is supplied only so that setDefaults does not register the -tls_* flags again
+	return setDefaults(&plugin.Options{HTTPTransport: http.DefaultTransport}).UI
 }
